@@ -46,7 +46,7 @@
                           -> add_task (IoRcAt)  IoRcRel (Rel Rq)
      send_continue()      ScAcq (A Ob) ScApp (outbufs[-1].append) ScTotR/ScTotW
                           (total += 25, sent_continue := True) ScFl (_flush_some)
-                          ScRel (Rel Ob; request.completed := False)
+                          ScRel (Rel Ob)
      handle_write_event   IoHwConn (R connected) IoHwReq (R requests: [] ->
                           IoHwFlU = _flush_some WITHOUT the lock) IoHwTot (R total
                           >= send_bytes) IoHwTry (try-acquire Ob) IoHwFlL
@@ -58,7 +58,8 @@
                           HcConn (W connected:=False) HcNotify HcRel HcConn2
                           (dispatcher.close: W connected, map delete, socket.close)
      _flush_some()        FlLoad (outbufs[0], len) FlGet (get) FlSend (send: ESend n)
-                          FlSkip (skip; ValueError when fewer than n bytes are left)
+                          FlSkip (skip; ValueError when fewer than n bytes are left; FExc also stands for
+                          the IndexError of outbufs[0] / pop(0) on an emptied list)
                           FlTotR FlTotW (total -= n) FlLen (len(outbufs) > 1) FlPop
      handler_thread()     WAcqD (A Dl; `while not queue` test; popleft) WWait
                           WParked (wake-up: needs a notify) WRelD
@@ -79,9 +80,10 @@
      of its header block, the sizes of the write_soon calls its task makes, and
      whether the task ends with close_on_finish.  What the parser and the task
      compute is the business of C01/C02/C03; here only the order and the
-     number of executions and the position of the bytes matter.  Expecting
-     requests whose body is empty/complete at the end of the header block are
-     finding F5/F6 of property C19 and are not in this model's input space.
+     number of executions and the position of the bytes matter.  An expecting
+     request without a body (complete at the end of its header block) is the
+     item IFullX.  (Since fix e3537e2 send_continue() no longer resets
+     request.completed; the model follows the repaired code.)
    * Bytes are tokens: TResp id k is the k-th byte of the response to request
      id, TCont id k the k-th byte of an interim `100 Continue` sent for request
      id.  Duplication, loss, reordering and interleaving are visible on tokens.
@@ -104,7 +106,7 @@
      (over-approximation of a pulled trigger); pull_trigger is a step
      without effect.  Wake-ups are property C05.
    * Input: the client's byte stream is the script's item stream (IFull id |
-     IHead id ; IRest id); a recv() delivers k >= 0 whole items and possibly
+     IHead id ; IRest id | IFullX id); a recv() delivers k >= 0 whole items and possibly
      an incomplete piece of the next one.
    Ghost fields (never read by the program): arrivals, starts, execs, wire,
    produced, discarded, units, infl, wsc, closing, popped. *)
@@ -116,9 +118,9 @@ Open Scope nat_scope.
 
 Inductive tok := TResp (id k : nat) | TCont (id k : nat).
 
-Record rdesc := { r_expect : bool; r_writes : list nat; r_close : bool }.
+Record rdesc := { r_expect : bool; r_nobody : bool; r_writes : list nat; r_close : bool }.
 
-Inductive item := IFull (id : nat) | IHead (id : nat) | IRest (id : nat).
+Inductive item := IFull (id : nat) | IHead (id : nat) | IRest (id : nat) | IFullX (id : nat).
 Inductive ritem := Whole (it : item) | Piece (it : item).
 
 Inductive unit_ := UResp (id n : nat) | UCont (id : nat).
@@ -232,12 +234,12 @@ Record state := { sh : shared; io : iost; wk : nat -> wkst }.
 (* ---------------------------------------------------------------- helpers *)
 
 Definition desc (P : params) (id : nat) : rdesc :=
-  nth id (p_script P) {| r_expect := false; r_writes := []; r_close := false |}.
+  nth id (p_script P) {| r_expect := false; r_nobody := false; r_writes := []; r_close := false |}.
 
 Fixpoint items_from (id : nat) (l : list rdesc) : list item :=
   match l with
   | [] => []
-  | d :: r => (if r_expect d then [IHead id; IRest id] else [IFull id]) ++ items_from (S id) r
+  | d :: r => (if r_expect d then (if r_nobody d then [IFullX id] else [IHead id; IRest id]) else [IFull id]) ++ items_from (S id) r
   end.
 Definition stream (P : params) : list item := items_from 0 (p_script P).
 
@@ -327,11 +329,15 @@ Definition fl_set (f : flst) (pc : flpc) : flst :=
 
 Definition fl_step (s : shared) (f : flst) (e : env) : option (shared * flres * list label) :=
   match fpc f with
-  | FlLoad =>
-      let n := length (hd [] (obs s)) in
-      let f' := {| fpc := if Nat.ltb 0 n then FlGet else FlLen; f_olen := n; f_chunk := f_chunk f;
-                   f_n := f_n f; f_tmp := f_tmp f; f_sent := f_sent f |} in
-      Some (s, FCont f', [LR AOutbufs])
+  | FlLoad =>     (* outbuf = self.outbufs[0] (IndexError on an empty list: only after two threads popped) *)
+      match obs s with
+      | [] => Some (s, FExc, [LR AOutbufs])
+      | b :: _ =>
+          let n := length b in
+          let f' := {| fpc := if Nat.ltb 0 n then FlGet else FlLen; f_olen := n; f_chunk := f_chunk f;
+                       f_n := f_n f; f_tmp := f_tmp f; f_sent := f_sent f |} in
+          Some (s, FCont f', [LR AOutbufs])
+      end
   | FlGet =>     (* chunk = outbuf.get(self.sendbuf_len): a snapshot of the head of the first buffer *)
       let f' := {| fpc := FlSend; f_olen := f_olen f; f_chunk := hd [] (obs s);
                    f_n := f_n f; f_tmp := f_tmp f; f_sent := f_sent f |} in
@@ -365,7 +371,10 @@ Definition fl_step (s : shared) (f : flst) (e : env) : option (shared * flres * 
       if Nat.ltb 1 (length (obs s)) then Some (s, FCont (fl_set f FlPop), [LR AOutbufs])
       else Some (s, FDone (f_sent f), [LR AOutbufs])
   | FlPop =>
-      Some (set_obs s (tl (obs s)), FCont (fl_set f FlLoad), [LR AOutbufs])
+      match obs s with
+      | [] => Some (s, FExc, [LR AOutbufs])
+      | _ :: r => Some (set_obs s r, FCont (fl_set f FlLoad), [LR AOutbufs])
+      end
   end.
 
 (* send_continue(); the caller has tested the condition and cleared expect_continue *)
@@ -467,10 +476,11 @@ Definition io_step (s : shared) (i : iost) (e : env) : option (shared * iost * l
       | it :: rest =>
           let mk pc cur comp := {| ipc := pc; i_r := i_r i; i_w := i_w i; i_ws := i_ws i; i_items := rest; i_cur := cur; i_comp := comp |} in
           match it with
-          | Piece (IFull id) | Piece (IHead id) => Some (set_pst s (Some (id, false, false)), mk IoRcItem id false, [])
+          | Piece (IFull id) | Piece (IHead id) | Piece (IFullX id) => Some (set_pst s (Some (id, false, false)), mk IoRcItem id false, [])
           | Piece (IRest id) => Some (s, mk (if pst_ec s then IoRcChk else IoRcItem) id false, [])
           | Whole (IFull id) => Some (set_pst s (Some (id, false, true)), mk IoRcApp id true, [])
           | Whole (IHead id) => Some (set_pst s (Some (id, true, true)), mk IoRcChk id false, [])
+          | Whole (IFullX id) => Some (set_pst s (Some (id, true, true)), mk IoRcChk id true, [])
           | Whole (IRest id) => Some (set_pst s (Some (id, pst_ec s, true)), mk (if pst_ec s then IoRcChk else IoRcApp) id true, [])
           end
       end
@@ -481,8 +491,7 @@ Definition io_step (s : shared) (i : iost) (e : env) : option (shared * iost * l
   | IoRcSc c =>
       match sc_step TIo s c e with
       | Some (s', SCont c', l) => Some (s', goto (IoRcSc c'), l)
-      | Some (s', SDone, l) =>   (* self.request.completed = False *)
-          Some (s', {| ipc := IoRcItem; i_r := i_r i; i_w := i_w i; i_ws := i_ws i; i_items := i_items i; i_cur := i_cur i; i_comp := false |}, l)
+      | Some (s', SDone, l) => Some (s', goto (if i_comp i then IoRcApp else IoRcItem), l)
       | Some (s', SExc, l) => Some (s', goto IoRcRelX, l)
       | None => None
       end
